@@ -16,7 +16,16 @@
   * it is a LOWER bound over the programs without empty lists (`C05_dist_sound_partial`), hence the
     exact minimum over those (`C05_dist_exact_partial`, `C05_analyse_exact_partial`);
   * the solution of the equations is unique (`C05_fixpoint_unique`), so the reported distances do
-    not depend on the order in which the loop visits its symbol set.
+    not depend on the order in which the loop visits its symbol set
+    (`C05_analyse_order_independent`);
+  * productions = registered direct subclasses (`C05_productions_exact`); reported recursive =
+    lies on a cycle of the successor graph (`C05_recursive_iff_cycle`); classes kept by
+    `usable_grammar` = classes reachable from the start symbol (`C05_usable_contains_reachable`).
+
+  Hypotheses that are artefacts of the model's registration fuel (`Closed`, `ClosedNodes`: every
+  symbol mentioned by a registered symbol is registered) are decidable and are stated explicitly.
+  NOT proved here: the language-level reading of recursion ("can derive a program containing
+  itself", needs productivity of the siblings) and "`usable_grammar` generates the same programs".
 
   Definitions (`GEVerif/Lemmas/Analysis.lean`): `Derives g r ty v` — the language (refinements
   ignored, lists of any length); `DerivesK g r ty v k` — the same with the derivation cost `k` of
@@ -31,7 +40,7 @@ import GEVerif.Lemmas.Analysis
 namespace GEVerif.C05
 open GEVerif GEVerif.Analysis
 
-/-! ### 0. Productions -/
+/-! ### 1. Productions -/
 
 /-- The productions the extraction lists for `a` are exactly the registered classes whose declared
 parent is `a`, `a` abstract ("its direct subtypes among the supplied classes"); whatever the
@@ -54,7 +63,7 @@ theorem C05_productions_acyclic (g : GrammarSpec) {rank : Nat → Nat}
     (h : ParentRanked g.classes rank) : AltsRanked (analyse g).reg rank :=
   altsRanked_analyse g h
 
-/-! ### 4. The iteration computes a solution of the equations -/
+/-! ### 2. The iteration computes a solution of the equations -/
 
 /-- One round never increases any value. -/
 theorem C05_step_decreasing (g : GrammarSpec) (r : Reg) (d : DistTable) (s : Sym) :
@@ -111,7 +120,7 @@ theorem C05_analyse_fixpoint (g : GrammarSpec) :
     isFixpoint g (analyse g).reg (analyse g).dist = true :=
   C05_iter_converges g _ _ _ (by omega)
 
-/-! ### 2. Soundness (lower bound) — needs "no empty list" -/
+/-! ### 3. Soundness (lower bound) — needs "no empty list" -/
 
 /-- Both modes: the reported distance of a type is at most the cost of every derivation of a
 program without empty lists.  `d` only needs `d s ≤ rhs d s` on its keys (any fixpoint does),
@@ -134,12 +143,6 @@ theorem C05_dist_sound_partial {g : GrammarSpec} {r : Reg} {d : DistTable}
   rw [← derivesK_cost_eq_depth he hk]
   exact C05_dist_sound_cost_partial hfix hcl hty hk hne
 
-/-- The grammar `A ::= Leaf | Many(xs : list[A])` (A abstract). -/
-def witnessSpec : GrammarSpec :=
-  { classes := [⟨"A", true, none, []⟩, ⟨"Leaf", false, some 0, []⟩,
-                ⟨"Many", false, some 0, [("xs", .list (.cls 0))]⟩],
-    start := 0, considered := [1, 2] }
-
 /-- Why `NoEmptyList` cannot be dropped (finding: "empty list makes the reported minimum an upper
 bound").  For `A ::= Leaf | Many(xs : list[A])` the analysis stops on the solution
 `A ↦ 1, Leaf ↦ 1, Many ↦ 2` of the equations, with closed keys; the program `Many([])` is derivable
@@ -156,7 +159,7 @@ theorem C05_dist_sound_witness :
   refine ⟨by decide, by decide, by decide, by decide, ?_, by decide, by decide, by decide⟩
   exact .node (by decide) (.cons (.list .nil) .nil)
 
-/-! ### 1. Attainment (upper bound) — always -/
+/-! ### 4. Attainment (upper bound) — always -/
 
 /-- Both modes, any solution `d` of the equations, productions acyclic: a type with a finite
 reported distance has a derivable program (without empty lists) whose derivation costs at most
@@ -167,14 +170,14 @@ theorem C05_dist_upper_cost {g : GrammarSpec} {r : Reg} {d : DistTable}
     ∃ v k, DerivesK g r ty v k ∧ NoEmptyList v = true ∧ k ≤ distTy g.e d ty :=
   attInv_ty (attInv_of_isFixpoint hfix hr) ty hfin
 
-/-- Node-depth mode: a type with a finite reported distance derives a program at most that deep.
-(No hypothesis on lists: the reported minimum is an upper bound of the true minimum.) -/
+/-- Either mode: a type with a finite reported distance derives a program at most that deep.
+(No hypothesis on lists: the reported minimum is an upper bound of the true minimum depth.) -/
 theorem C05_dist_upper {g : GrammarSpec} {r : Reg} {d : DistTable}
-    (hfix : isFixpoint g r d = true) {rank : Nat → Nat} (hr : AltsRanked r rank) (he : g.e = 0)
+    (hfix : isFixpoint g r d = true) {rank : Nat → Nat} (hr : AltsRanked r rank)
     {ty : Ty} (hfin : distTy g.e d ty < INF) :
     ∃ v, Derives g r ty v ∧ NoEmptyList v = true ∧ v.depth ≤ distTy g.e d ty := by
   obtain ⟨v, k, h1, h2, h3⟩ := C05_dist_upper_cost hfix hr hfin
-  exact ⟨v, h1.toDerives, h2, by rw [← derivesK_cost_eq_depth he h1]; exact h3⟩
+  exact ⟨v, h1.toDerives, h2, Nat.le_trans (derivesK_depth_le_cost h1) h3⟩
 
 /-- The same for whatever the loop returns when started from the all-`INF` table — no hypothesis
 at all (not even that the loop converged): every finite value ever stored is attained. -/
@@ -183,12 +186,21 @@ theorem C05_dist_upper_iter (g : GrammarSpec) (r : Reg) (nodes : List Sym) (fuel
     let d := distIter g r fuel (nodes.map fun s => (s, INF))
     distTy g.e d ty < INF →
     ∃ v k, DerivesK g r ty v k ∧ NoEmptyList v = true ∧ k ≤ distTy g.e d ty ∧
-      (g.e = 0 → Derives g r ty v ∧ v.depth ≤ distTy g.e d ty) := by
+      Derives g r ty v ∧ v.depth ≤ distTy g.e d ty := by
   intro d hfin
   obtain ⟨v, k, h1, h2, h3⟩ := attInv_ty (attInv_iter fuel (attInv_init g r nodes)) ty hfin
-  exact ⟨v, k, h1, h2, h3, fun he => ⟨h1.toDerives, by rw [← derivesK_cost_eq_depth he h1]; exact h3⟩⟩
+  exact ⟨v, k, h1, h2, h3, h1.toDerives, Nat.le_trans (derivesK_depth_le_cost h1) h3⟩
 
-/-! ### 3. Exactness over programs without empty lists; uniqueness of the solution -/
+/-- The analysed grammar, unconditionally: every type whose reported distance is finite has a
+derivable program (without empty lists) of at most that depth — `Grammar.distOf` never
+under-promises feasibility. -/
+theorem C05_analyse_dist_upper (g : GrammarSpec) {ty : Ty}
+    (hfin : (analyse g).distOf ty < INF) :
+    ∃ v, Derives g (analyse g).reg ty v ∧ NoEmptyList v = true ∧ v.depth ≤ (analyse g).distOf ty := by
+  obtain ⟨v, k, _, h2, _, h4, h5⟩ := C05_dist_upper_iter g (analyse g).reg _ _ hfin
+  exact ⟨v, h4, h2, h5⟩
+
+/-! ### 5. Exactness over programs without empty lists; uniqueness of the solution -/
 
 /-- Both modes: for a solution of the equations the reported distance of a type is the MINIMUM
 cost of deriving a program without empty lists. -/
@@ -297,7 +309,7 @@ theorem C05_analyse_order_independent (g : GrammarSpec) {rank : Nat → Nat}
   exact C05_fixpoint_unique hfix' (C05_analyse_fixpoint g).2 hcl' hcl
     (C05_productions_acyclic g hrank) (fun s => by rw [hkeys, hk]) s
 
-/-! ### 5. Recursion = a cycle of the successor graph -/
+/-! ### 6. Recursion = a cycle of the successor graph -/
 
 /-- Whatever the fuel: a symbol reported recursive lies on a cycle of `succs`. -/
 theorem C05_recursive_sound (g : GrammarSpec) (r : Reg) (s : Sym) :
@@ -327,7 +339,7 @@ theorem C05_analyse_recursive (g : GrammarSpec) (hcl : ClosedNodes g (analyse g)
   · rintro ⟨h1, h2⟩; exact ⟨h1, (C05_recursive_iff_cycle hcl h1).1 h2⟩
   · rintro ⟨h1, h2⟩; exact ⟨h1, (C05_recursive_iff_cycle hcl h1).2 h2⟩
 
-/-! ### 6. The reachable classes -/
+/-! ### 7. The reachable classes -/
 
 /-- Whatever the fuel: every class `usable_grammar` keeps is reachable from the start symbol. -/
 theorem C05_reachable_classes_sound (g : Grammar) (n : Nat) :
@@ -359,22 +371,7 @@ theorem C05_usable_contains_reachable (g : Grammar) (hcl : ClosedNodes g.spec g.
   · left; simp at h; simp [h]
   · right; exact (mem_reachFrom_iff hU _).2 h
 
-/-! ### Non-vacuity -/
-
-/-- `Expr ::= Lit(v : int) | Add(l : Expr, r : Expr) | Neg(x : Annotated[Expr, …]) |
-Pair(t : tuple[Expr, bool]) | U(u : Union[Lit, Add])`, plus an unreachable class. -/
-def exSpec (expansion : Bool) : GrammarSpec :=
-  { classes := [⟨"Expr", true, none, []⟩,
-                ⟨"Lit", false, some 0, [("v", .int)]⟩,
-                ⟨"Add", false, some 0, [("l", .cls 0), ("r", .cls 0)]⟩,
-                ⟨"Neg", false, some 0, [("x", .ann (.cls 0) (.intRange 0 1))]⟩,
-                ⟨"Pair", false, some 0, [("t", .tuple [.cls 0, .bool])]⟩,
-                ⟨"U", false, some 0, [("u", .union [.cls 1, .cls 2])]⟩,
-                ⟨"Other", false, none, []⟩],
-    start := 0, considered := [1, 2, 3, 4, 5, 6], expansion := expansion }
-
-/-- rank of the classes of `exSpec`: the abstract root above its productions -/
-def exRank : Nat → Nat := fun n => if n = 0 then 1 else 0
+/-! ### Non-vacuity (example grammars `witnessSpec`, `exSpec` are defined in Lemmas/Analysis.lean) -/
 
 example : (analyse (exSpec false)).dist =
     [(.cls 0, 1), (.cls 1, 1), (.int, 0), (.cls 2, 2), (.cls 3, 2), (.cls 4, 2), (.bool, 0),
@@ -390,17 +387,6 @@ example : ∀ b : Bool,
     Closed (exSpec b) a.reg a.dist ∧ (∀ s ∈ explode (.cls 0), s ∈ a.reg.allNodes) ∧
     a.distOf (.cls 0) < INF := by decide
 
-theorem exRanked (b : Bool) : ParentRanked (exSpec b).classes exRank := by
-  intro c p h
-  have hc : c < 7 ∨ 7 ≤ c := by omega
-  rcases hc with hc | hc
-  · have : c = 0 ∨ c = 1 ∨ c = 2 ∨ c = 3 ∨ c = 4 ∨ c = 5 ∨ c = 6 := by omega
-    rcases this with rfl | rfl | rfl | rfl | rfl | rfl | rfl <;> simp [exSpec] at h <;>
-      subst h <;> simp [exRank]
-  · have : (exSpec b).classes.getD c default = default := by
-      rw [List.getD_eq_getElem?_getD, List.getElem?_eq_none (by simpa [exSpec] using hc)]; rfl
-    rw [this] at h; cases h
-
 example : AltsRanked (analyse (exSpec false)).reg exRank :=
   C05_productions_acyclic _ (exRanked false)
 
@@ -412,6 +398,17 @@ example : ClosedNodes (exSpec false) (analyse (exSpec false)).reg ∧
     Sym.cls (exSpec false).start ∈ (analyse (exSpec false)).reg.allNodes ∧
     (analyse (exSpec false)).recursive = [.cls 0, .cls 2, .cls 3, .cls 4, .cls 5] ∧
     reachableClasses (analyse (exSpec false)) = [0, 1, 2, 3, 4, 5] := by decide
+
+/-- registered but unreachable: starting from `Lit`, registration walks up to `Expr` and down to all
+its considered subclasses, none of which `Lit` can reach -/
+example : reachableClasses (analyse { exSpec false with start := 1 }) = [1] ∧
+    (analyse { exSpec false with start := 1 }).classNodes = [1, 0, 2, 3, 4, 5] ∧
+    ClosedNodes { exSpec false with start := 1 } (analyse { exSpec false with start := 1 }).reg := by
+  decide
+
+/-- a cycle, as a path: `Expr → Add → Expr` -/
+example : ReachPlus (exSpec false) (analyse (exSpec false)).reg (.cls 0) (.cls 0) :=
+  .tail (.step (b := .cls 2) (by decide)) (by decide)
 
 /-- a derivable program with an empty-list-free value, and its cost in both modes -/
 example : DerivesK (exSpec true) (analyse (exSpec true)).reg (.cls 0) (.node 1 0 0 [.int 7]) 3 := by
